@@ -68,8 +68,8 @@ Logged ==
   \/ Is("XAwB") /\ \E k \in DOMAIN task[DT(Ln.d)].kids : task[DT(Ln.d)].kids[k] = Ln.e /\ DAwaitBegin(Ln.d, k)
   \/ Is("XAwE") /\ task[DT(Ln.d)].aw = Ln.e /\ DAwaitEnd(Ln.d)
   \/ Is("IdleB") /\ DIdleBegin(Ln.d, Ln.b, Ln.tmo >= 0)
-  \/ Is("IdleE") /\ task[DT(Ln.d)].b = Ln.b /\ DIdleRecheck(Ln.d) /\ task'[DT(Ln.d)].pc = "run"
-  \/ Is("IdleE") /\ task[DT(Ln.d)].b = Ln.b /\ DIdleTimeout(Ln.d)
+  \/ Is("IdleE") /\ task[DT(Ln.d)].b = Ln.b /\ task[DT(Ln.d)].h # "stop" /\ DIdleRecheck(Ln.d) /\ task'[DT(Ln.d)].pc = "run"
+  \/ Is("IdleE") /\ task[DT(Ln.d)].b = Ln.b /\ task[DT(Ln.d)].h # "stop" /\ DIdleTimeout(Ln.d)
   \/ Is("Wal") /\ \E t \in Tasks : task[t].fb = Ln.b /\ task[t].fe = Ln.e /\ WalWrite(t, FALSE)
   \/ Is("WalFault") /\ Ln.at = "write" /\ \E t \in Tasks : task[t].fb = Ln.b /\ task[t].fe = Ln.e /\ WalWrite(t, TRUE)
   \/ Is("WalFault") /\ Ln.at = "open" /\ \E t \in Tasks : task[t].fb = Ln.b /\ task[t].fe = Ln.e /\ WalOpen(t, TRUE)
@@ -80,21 +80,23 @@ Logged ==
   \/ Is("StopB") /\ Ln.d >= 1000 /\ HStopBegin(Ln.d - 1000, Ln.b)
   \/ Is("StopE") /\ Ln.d >= 1000 /\ (HStopWaitEnd(Ln.d - 1000) \/ (HStopGo(Ln.d - 1000) /\ task'[HT(Ln.d - 1000)].pc = "ops"))
   \/ Is("StopB") /\ Ln.d < 1000 /\ Ln.tmo <= 0 /\ DStopBegin(Ln.d, Ln.b)
-  \/ Is("StopE") /\ Ln.d < 1000 /\ task[DT(Ln.d)].b = Ln.b /\ (DStopGo(Ln.d) \/ DStopWaitEnd(Ln.d)) /\ task'[DT(Ln.d)].pc = "run"
+  \/ Is("StopB") /\ Ln.d < 1000 /\ Ln.tmo > 0 /\ DStopBeginT(Ln.d, Ln.b)
+  \/ Is("StopE") /\ Ln.d < 1000 /\ task[DT(Ln.d)].b = Ln.b /\ (DStopGo(Ln.d) \/ DStopWaitEnd(Ln.d) \/ DStopBody(Ln.d)) /\ task'[DT(Ln.d)].pc = "run"
   \/ Is("CancelRL") /\ DCancelRL(Ln.d, Ln.b)
   \/ (Is("Init") \/ Is("End") \/ Is("Acc")) /\ UNCHANGED vars
 
 Counted ==   \* silent steps that change the state
   \/ \E b \in B : RLStart(b) \/ RLTake(b) \/ RLPollIdle(b) \/ (RLBegin(b) /\ task'[RL(b)].pc = "lockwait")
   \/ \E b \in B : RLDrop(b) \/ RLPollExit(b) \/ RLDie(b) \/ RLShutExit(b) \/ RLDieLocked(b) \/ RLTakeDying(b)
-  \/ \E i \in 1..NDrv : (DStopGo(i) /\ task'[DT(i)].pc = "stop_wait") \/ DExpectGo(i)
+  \/ \E i \in 1..NDrv : (DStopGo(i) /\ task'[DT(i)].pc = "stop_wait") \/ (DStopBody(i) /\ task'[DT(i)].pc = "stop_wait") \/ DExpectGo(i)
+  \/ \E i \in 1..NDrv : task[DT(i)].h = "stop" /\ (DIdleTimeout(i) \/ DIdleRecheck(i))
   \/ \E a \in 1..MaxAct : HStopGo(a) /\ task'[HT(a)].pc = "hstop_wait"
   \/ \E t \in Tasks : task[t].todo # <<>> /\ Head(task[t].todo).kind = "exp" /\ OwnerNext(t)
   \/ \E t \in Tasks : (ProcSelect(t) /\ task'[t].pc = "pb") \/ (OwnerNext(t) /\ task'[t].pc = "waith") \/ OwnerResume(t) \/ OwnerEpilogue(t) \/ OwnerAbort(t) \/ FwdReturn(t) \/ SyncReturn(t) \/ ParStart(t) \/ TimeoutFire(t) \/ WalBegin(t) \/ WalOpen(t, FALSE) \/ WalClose(t)
   \/ \E k \in 1..MaxAct : XStart(k) \/ XEnd(k) \/ XAbandon(k)
   \/ \E t \in Tasks : PCancelWake(t)
   \/ \E a \in 1..MaxAct : HSuspend(a, "yield") \/ HSuspend(a, "sleep")
-  \/ \E i \in 1..NDrv : DIdleStart(i) \/ DIdleJoin(i) \/ DIdleFlag(i) \/ (DIdleRecheck(i) /\ task'[DT(i)].pc # "run")
+  \/ \E i \in 1..NDrv : DIdleStart(i) \/ DIdleJoin(i) \/ DIdleFlag(i) \/ (task[DT(i)].h # "stop" /\ DIdleRecheck(i) /\ task'[DT(i)].pc # "run")
 Spins == \E a \in 1..MaxAct : InlineSpin(a) \/ SpinWake(a)     \* 1000 zero-sleeps revisit the same two states
 
 TNext ==
